@@ -721,6 +721,7 @@ fn gen_offset(c: &mut Ctx, i: usize) -> i32 {
 }
 
 fn run_zoned(c: &mut Ctx, n: usize, special: &[(i64, u32)]) {
+    let mut whole_seen = std::collections::BTreeSet::new();
     for i in 0..n {
         let nd = if i < 4 * special.len() {
             let (s, f) = special[i % special.len()];
@@ -731,7 +732,17 @@ fn run_zoned(c: &mut Ctx, n: usize, special: &[(i64, u32)]) {
         } else {
             gen_ndt(c, special)
         };
-        let off = if i < 4 * special.len() { [0, 3600, -3600, 86_340][i / special.len()] } else { gen_offset(c, i) };
+        // boundary instants at four offsets, then every whole-minute offset once, then the generator
+        let off = if i < 4 * special.len() {
+            [0, 3600, -3600, 86_340][i / special.len()]
+        } else if i < 4 * special.len() + 2879 {
+            ((i - 4 * special.len()) as i32 - 1439) * 60
+        } else {
+            gen_offset(c, i)
+        };
+        if off % 60 == 0 {
+            whole_seen.insert(off);
+        }
         let fo = FixedOffset::east_opt(off).unwrap();
         let u: DateTime<Utc> = nd.and_utc();
         let z: DateTime<FixedOffset> = u.with_timezone(&fo);
@@ -916,6 +927,7 @@ fn run_zoned(c: &mut Ctx, n: usize, special: &[(i64, u32)]) {
             }
         }
     }
+    c.count_n("zoned:distinct-whole-minute-offsets(of 2879)", whole_seen.len() as u64);
 }
 
 fn run_strings(c: &mut Ctx, special: &[(i64, u32)]) {
